@@ -468,6 +468,12 @@ def rule_d(ck, R):
                'accepts exactly: version 0, reserved option bit clear, the 5 defined types, request meta 0, every response code 0..%d, META codes 1 and 2; at least 12 octets' % maxresp
                if not bad else '; '.join(sorted(set(bad))))
     ck.floor('C07.d', 'accepting paths of parse_header', len(acc), 5)
+    # representation: the parsed header keeps every wire field at its full width (sequence 16, address 32, block size 32,
+    # checksums 16 bits); a narrower field silently truncates what later code echoes, compares and executes
+    ns = eng.narrowing_stores(ps)
+    ck.verdict(not ns, 'C07.d', 'parse_header:field-widths', where,
+               'no header field is narrower than the wire value stored in it' if not ns else
+               '%s <- %s: %s' % (fmt(ns[0][0].name), ns[0][1], ns[0][2]))
 
 
 def run(ck):
